@@ -53,6 +53,7 @@ func failCase(t vk.TB, name, msg string) {
 }
 
 var sinceSnapshot int
+var held, heldCopy []string
 
 // checkName registers name and compares with the specification.
 func checkName(t vk.TB, name string) (accepted bool) {
@@ -83,6 +84,19 @@ func checkName(t vk.TB, name string) (accepted bool) {
 	}
 	model[name] = tag
 	modelSet[name] = true
+	if held != nil {
+		// a list handed out earlier is a snapshot: registering another name must not change it
+		for i := range held {
+			if held[i] != heldCopy[i] {
+				failCase(t, name, fmt.Sprintf("registering a name changed a list returned earlier by GetAllTags (entry %d was %q, now %q)", i, heldCopy[i], held[i]))
+			}
+		}
+		held = nil
+	}
+	if len(modelSet)%97 == 0 {
+		held = log.GetAllTags()
+		heldCopy = slices.Clone(held)
+	}
 	var again *log.Tag
 	if p := vk.Catch(func() { again = log.RegisterTag(name) }); p != nil || again != tag {
 		failCase(t, name, fmt.Sprintf("second registration: panic=%v same pointer=%v", p, again == tag))
@@ -92,6 +106,11 @@ func checkName(t vk.TB, name string) (accepted bool) {
 
 func checkRegistry(t vk.TB, when string) {
 	initModel()
+	// a caller may post-process the returned list in place; later answers must not change
+	scribble := log.GetAllTags()
+	for i := range scribble {
+		scribble[i] = "zz_scribbled"
+	}
 	got := log.GetAllTags()
 	want := make([]string, 0, len(modelSet))
 	for n := range modelSet {
